@@ -3,14 +3,16 @@
 and record what was run (verification of the change itself + verdict of the property's quick check on /repo HEAD + it)."""
 import json, os, shutil, subprocess, sys
 W, X, first = sys.argv[1], sys.argv[2], sys.argv[3]
+DST = sys.argv[4] if len(sys.argv) > 4 else X
+CHECKS = sys.argv[5].split(',') if len(sys.argv) > 5 else None
 pid = os.path.basename(W.rstrip('/'))
-dst = '/verif/seeded/%s%s' % (pid, X)
+dst = '/verif/seeded/%s%s' % (pid, DST)
 os.makedirs(dst, exist_ok=True)
 shutil.copy(os.path.join(W, 'mutant%s.diff' % X), os.path.join(dst, 'patch.diff'))
 shutil.copy(os.path.join(W, 'demo%s.py' % X), os.path.join(dst, 'demo.py'))
 agent_meta = json.load(open(os.path.join(W, 'meta%s.json' % X)))
 ver = subprocess.run(['/verif/tools/verify_mutant.sh', W, X], capture_output=True, text=True).stdout.strip()
-chk = subprocess.run(['/verif/tools/mutcheck_par.sh', os.path.join(dst, 'patch.diff'), pid + X, pid], capture_output=True, text=True).stdout.strip()
+chk = subprocess.run(['/verif/tools/mutcheck_par.sh', os.path.join(dst, 'patch.diff'), pid + DST] + (CHECKS or [pid]), capture_output=True, text=True).stdout.strip()
 verdict = 'DETECTED' if ' DETECTED ' in chk else ('MISSED' if ' MISSED ' in chk else 'BROKEN')
 meta = {
     'property': pid,
@@ -23,11 +25,11 @@ meta = {
         'result': ver,
     },
     'check': {
-        'command': 'tools/mutcheck_par.sh seeded/%s%s/patch.diff %s%s %s   (equivalent: git -C /repo apply ...; ./check %s; git -C /repo checkout -- .)' % (pid, X, pid, X, pid, pid),
+        'command': 'tools/mutcheck_par.sh seeded/%s%s/patch.diff %s%s %s   (equivalent: git -C /repo apply ...; ./check %s; git -C /repo checkout -- .)' % (pid, DST, pid, DST, ' '.join(CHECKS or [pid]), pid),
         'verdict_first_run': first,
         'verdict_now': verdict,
         'output': chk[:1500],
     },
 }
 json.dump(meta, open(os.path.join(dst, 'meta.json'), 'w'), indent=1)
-print(pid + X, first, '->', verdict)
+print(pid + DST, first, '->', verdict)
